@@ -52,12 +52,16 @@ class Script:
 
     def op(self, name, rng, store=False, override=False, payload=None):
         kw, ov_seq, ov_ack = {}, None, None
-        if override and name in ("client_message", "server_message", "client_segment", "server_segment", "client_ack", "server_ack"):
+        if override and name in ("client_message", "server_message", "client_segment", "server_segment", "client_ack", "server_ack",
+                                 "client_raw_segment", "server_raw_segment"):
+            # (an override that happens to equal the counter's current value is still an override)
+            cnow, snow = self.seqs()
+            mine_now, peer_now = (cnow, snow) if name.startswith("client") else (snow, cnow)
             if rng.random() < 0.7:
-                ov_seq = rng.choice([0, 5, 2**32 - 1, rng.getrandbits(32)])
+                ov_seq = rng.choice([0, 5, 2**32 - 1, rng.getrandbits(32), mine_now, mine_now])
                 kw["seq"] = ov_seq
             if rng.random() < 0.5:
-                ov_ack = rng.choice([0, 9, 2**32 - 2, rng.getrandbits(32)])
+                ov_ack = rng.choice([0, 9, 2**32 - 2, rng.getrandbits(32), peer_now])
                 kw["ack"] = ov_ack
             if kw:
                 self.has_override = True
@@ -96,13 +100,16 @@ class Script:
             # a raw segment / a bare header in front of its payload, carried by a hand-made IPv4 datagram: on the wire
             # it is one more data segment of the flow, and it consumes sequence space like one
             pl = payload if payload is not None else bytes(rng.getrandbits(8) for _ in range(rng.choice([0, 1, 3, rng.randint(0, 40)])))
-            segs.append(self.seg(d, 0x18, pl))
-            if d == "c":
-                self.cl_used += len(pl)
-            else:
-                self.sv_used += len(pl)
+            if not name.endswith("_raw_segment"):
+                kw, ov_seq, ov_ack = {}, None, None
+            segs.append(self.seg(d, 0x18, pl, seq=ov_seq, ack=ov_ack))
+            if ov_seq is None:
+                if d == "c":
+                    self.cl_used += len(pl)
+                else:
+                    self.sv_used += len(pl)
             a, b = (CL, SV) if d == "c" else (SV, CL)
-            inner = [Call("f." + name, _x=[STR(pl)])] if name.endswith("_raw_segment") else \
+            inner = [Call("f." + name, _x=[STR(pl)], **kw)] if name.endswith("_raw_segment") else \
                     [Call("f." + name, bytes=len(pl)), STR(pl)]
             call = Call("ipv4::datagram", IP(ip(a[0])), IP(ip(b[0])), _x=inner, proto=6)
         else:
